@@ -229,6 +229,16 @@ def text_meta(cx, type):
     p = split_meta(cx, b, tb)
     cx.check(p is not None and list(p) == list(text.encode('latin1')), 'payload=latin1')
     _decode_both(cx, mido, msg, list(b[:2]) + [int(x) for x in b[2:]], delta, concrete_bytes=True)
+    # the same text under another charset afterwards (text is always encoded in the charset in force)
+    from mido.midifiles import meta as _meta
+    if hasattr(_meta, 'meta_charset') and text and all(ord(c) < 0x100 for c in text) and len(text) < 200:
+        for cs in ('utf-8', 'utf-16'):
+            with _meta.meta_charset(cs):
+                b2 = msg.bytes()
+                p2 = split_meta(cx, b2, tb)
+                cx.check(p2 is not None and [int(x) for x in p2] == list(text.encode(cs)), 'payload=latin1')
+        b3 = msg.bytes()
+        cx.check([int(x) for x in b3] == [int(x) for x in b], 'payload=latin1')
     bad = [1, None, b'abc', ['a'], 1.5][cx.choice('bad', 5)]
     _, exc = cx.raises(lambda: mido.MetaMessage(type, **{attr: bad}), *REJECT, label='non-str-rejected')
     cx.check(exc is not None, 'non-str-rejected')
